@@ -122,7 +122,11 @@ class Gen:
                 if_ids = [self.fresh('i') for _ in range(k if not self.bad() else self.rng.choice([0, 1, 3]))]
                 if self.bad() and if_ids:
                     if_ids[-1] = self.rng.choice([if_ids[0], self.some_id(), ns_id])
-        return ['add_component', n, self.new_name('c', O.COMP), cid, ct, model, ns_id, if_ids]
+        name = self.new_name('c', O.COMP)
+        sib = [self.g.name(c) for c in self.g.nb(n, 'has', O.COMP) if self.g.name(c)]
+        if sib and self.rng.random() < 0.12:
+            name = self.rng.choice(sib)        # sibling name: must be refused
+        return ['add_component', n, name, cid, ct, model, ns_id, if_ids]
 
     def op_add_storage(self):
         nodes = self.ids(O.NODE, lambda n: n[2] != 'Facility')
@@ -211,7 +215,12 @@ class Gen:
         nodes = self.ids(O.NODE)
         if not nodes:
             return None
-        return ['node_add_ns', self.rng.choice(nodes), self.new_name('ns', O.NS), self.new_id('s'), self.service_type()]
+        n = self.rng.choice(nodes)
+        name = self.new_name('ns', O.NS)
+        sib = [self.g.name(c) for c in self.g.nb(n, 'has', O.NS) if self.g.name(c)]
+        if sib and self.rng.random() < 0.12:
+            name = self.rng.choice(sib)        # sibling name: must be refused
+        return ['node_add_ns', n, name, self.new_id('s'), self.service_type()]
 
     def op_node_remove_ns(self):
         g = self.g
@@ -308,7 +317,12 @@ class Gen:
         vlan = 100 + self.cnt          # distinct per call: vlan clashes depend on label values, which are not modelled
         if self.bad() and self.rng.random() < 0.4:
             vlan = None
-        return ['add_sub', self.rng.choice(pool), self.new_name('sub', O.CP), self.new_id('i'), vlan]
+        port = self.rng.choice(pool)
+        name = self.new_name('sub', O.CP)
+        kids = [g.name(c) for c in g.nb(port, 'connects', O.CP) if g.name(c)]
+        if kids and self.rng.random() < 0.2:
+            name = self.rng.choice(kids)       # sibling name: must be refused
+        return ['add_sub', port, name, self.new_id('i'), vlan]
 
     def op_remove_sub(self):
         g = self.g
